@@ -81,7 +81,10 @@ def source_hygiene():
             if not fn.endswith(".v"):
                 continue
             p = os.path.join(root, fn)
-            txt = open(p).read()
+            try:
+                txt = open(p).read()
+            except OSError:
+                continue      # a scratch file that vanished between os.walk and open
             txt = strip_coq_comments(txt)
             for m in FORBIDDEN.finditer(txt):
                 # `Variable`/`Hypothesis` are fine inside a Section; we simply do not use them at all
